@@ -122,6 +122,11 @@ def run_case(case):
             # the channel counts the file declares are the columns it holds: n-1 AP channels, no LF channel, one sync word
             res.check([int(v) for v in ms["snsApLfSy"]] == [len(c) - 1, 0, 1] and [int(v) for v in ms["acqApLfSy"]] == [len(c) - 1, 0, 1],
                       "split:shank-meta-counts", f"{label}: shank {s} ap meta declares snsApLfSy={ms.get('snsApLfSy')} acqApLfSy={ms.get('acqApLfSy')} for {len(c) - 1} AP channels + sync")
+            nsub = 0
+            for part in str(ms["snsSaveChanSubset"]).split(","):
+                a = part.split(":")
+                nsub += int(float(a[-1])) - int(float(a[0])) + 1
+            res.check(nsub == len(c), "split:shank-meta-counts", f"{label}: shank {s} ap meta snsSaveChanSubset={ms['snsSaveChanSubset']!r} lists {nsub} channels, the file holds {len(c)}")
             srs = spikeglx.Reader(f, sort=False)
             res.check(srs.type == "ap" and srs.shape == exp.shape and srs.nsync == 1, "split:shank-reader", f"{label}: shank {s} file opens as type {srs.type} shape {srs.shape} "
                       f"nsync {srs.nsync}, expected ap {exp.shape} 1", counter="shank_files_opened")
